@@ -81,6 +81,9 @@ func vC07StartAuth(label string, handle func(q dns.Question) *dns.Msg) (*vC07Aut
 		reply.Answer = src.Answer
 		reply.Ns = src.Ns
 		reply.Extra = src.Extra
+		if len(src.Question) > 0 {
+			reply.Question = src.Question // a server that rewrites the question section
+		}
 		_ = w.WriteMsg(reply)
 	})
 	a.srv = &dns.Server{Net: "udp", PacketConn: pc, Handler: mux}
